@@ -208,8 +208,9 @@ def r03_6(ctx, rr):
         hb = F.one(hint_p)
         hs = ("var", "self", hb.params[0]["id"])
         ht = Termizer(F, hb).term(hb.body)
-        ok = ht[0] == "tup" and len(ht) == 3 and ht[1][0] == "call" and ht[1][1].endswith("::len") and ht[2] == ("callv", ("def", "core::option::Option::Some"), (ht[1],)) or \
-            (ht[0] == "tup" and len(ht) == 3 and ht[1][0] == "call" and ht[1][1].endswith("::len") and ht[2][0] in ("call", "callv") and mentions(ht[2], lambda x: x == ht[1]))
+        # the remaining count of *this iterator*: `self.len()`, not the length of what it iterates over
+        own_len = ht[0] == "tup" and len(ht) == 3 and ht[1][0] == "call" and ht[1][1].endswith("::len") and ht[1][2] == (hs,)
+        ok = own_len and ht[2][0] in ("call", "callv") and mentions(ht[2], lambda x: x == ht[1])
         rr.instances += 1
         rr.check(bool(ok), "%s:hint" % short_fn(hb.key), "%s must be (self.len(), Some(self.len())); found %s" % (hb.key, tshow(ht)), hb.span)
         nb = F.one(next_p)
@@ -232,7 +233,26 @@ class Inliner:
                 e = e["expr"]
             if e.get("k") in ("Field", "Path", "Lit") or (e.get("k") in ("Call", "MethodCall") and all(a.get("k") in ("Path", "Field") for a in call_args(e))):
                 self.simple.setdefault(b.name, []).append((b, e))
+            elif e.get("k") in ("Tup", "Binary") and self._pure_arith(e):
+                # a helper returning a pair/expression of plain arithmetic on fields and parameters
+                self.simple.setdefault(b.name, []).append((b, e))
         self.depth = 0
+
+    def _pure_arith(self, e, depth=0):
+        k = e.get("k")
+        if depth > 6:
+            return False
+        if k in ("Field", "Path", "Lit"):
+            return all(self._pure_arith(c, depth + 1) for c in kids(e)) if k == "Field" else True
+        if k == "Tup":
+            return all(self._pure_arith(c, depth + 1) for c in e["es"])
+        if k == "Binary" and e["op"] in ("+", "-", "*", "/", "%", "<<", ">>", "&", "|"):
+            return self._pure_arith(e["l"], depth + 1) and self._pure_arith(e["r"], depth + 1)
+        if k in ("Cast", "Unary", "AddrOf"):
+            return all(self._pure_arith(c, depth + 1) for c in kids(e))
+        if k == "Block" and not e["stmts"] and "expr" in e:
+            return self._pure_arith(e["expr"], depth + 1)
+        return False
 
     def try_inline(self, cn, args, n, T):
         F = self.F
@@ -324,6 +344,22 @@ def r03_8(ctx, rr):
         rr.ob(ok, key=key, sample={"fn": lb.key, "len": tshow(t), "cursor_fields_advanced_by_next": sorted(cursors)})
         if not ok:
             rr.violate(key, "%s must be `total - self.<cursor>` with the cursor that next() advances by one per item (%s); found %s" % (lb.key, sorted(cursors), tshow(t)), lb.span)
+        # size_hint of the same iterator: (remaining, Some(remaining)) -- its own len(), or the same expression
+        hints = [b for b in F.fns() if b.name == "size_hint" and b.impl_self == lb.impl_self and (b.impl_trait or "").endswith(("Iterator", "Lender"))]
+        for hb in hints[:1]:
+            hs = ("var", "self", hb.params[0]["id"])
+            ht = Termizer(F, hb).term(hb.body)
+            lt = rewrite_term(t, s, hs)
+            okh = False
+            if ht[0] == "tup" and len(ht) == 3:
+                lo = ht[1]
+                own = (lo[0] == "call" and lo[1].endswith("::len") and lo[2] == (hs,)) or lo == lt
+                okh = own and ht[2][0] in ("call", "callv") and mentions(ht[2], lambda x: x == lo) and "Some" in repr(ht[2])
+            rr.instances += 1
+            hkey = "%s:remaining" % short_fn(hb.key)
+            rr.ob(okh, key=hkey)
+            if not okh:
+                rr.violate(hkey, "%s must report the number of items this iterator has left, `(self.len(), Some(self.len()))`; found %s (adaptors such as skip() derive their own length from it)" % (hb.key, tshow(ht)[:200]), hb.span)
 
 
 @rule("R03.9", props=["C03", "C12"], floor=1, title="EliasFanoBuilder::build refuses a builder that has not received n values")
